@@ -650,6 +650,19 @@ func judgeRaw(s *core.Shard, pc *pairCase) *verdict {
 	if kind, what := compareRaw(pristine, out, "", lookup); kind != "" {
 		return &verdict{Kind: kind, Attrs: map[string]string{"kind": kind}, What: what, Files: files}
 	}
+	// the same parsed document interpolated again (a caller that keeps the parsed tree, a reload with
+	// interpolation switched off): the first pass left it as it was parsed
+	if !reflect.DeepEqual(in, pristine) {
+		return &verdict{Kind: "raw-input-changed", Attrs: map[string]string{"kind": "raw-input-changed"},
+			What: "interp.Interpolate changed the document it was given (so interpolating that document again, or using it with interpolation off, no longer starts from what was written)", Files: files}
+	}
+	var out2 map[string]any
+	pi = core.Guard(func() { out2, err = interp.Interpolate(in, interp.Options{LookupValue: lookup}) })
+	s.Eval(1)
+	if pi == nil && err == nil && !reflect.DeepEqual(out, out2) {
+		return &verdict{Kind: "raw-second-pass-differs", Attrs: map[string]string{"kind": "raw-second-pass-differs"},
+			What: "interpolating the same parsed document a second time gives another result", Files: files}
+	}
 	return held
 }
 
